@@ -27,7 +27,7 @@ REQUIRED = ["entries_injective", "einv_fresh", "bit_set_get", "bit_total", "serv
             "fact_register_and_verify_order",
             # wire layer (deepening round): NutsProofs.Props.C11Wire
             "atoi_itoa_roundtrip", "atoi_fits_int", "index_strings_injective", "validated_entry_fields", "issued_entry_validates",
-            "validated_entry_never_atoi_error", "wire_entries_distinct", "fact_entry_validate_order", "fact_entry_literal_and_strconv_sites",
+            "validated_entry_never_atoi_error", "wire_entries_distinct", "status_list_urls_injective", "wire_entries_distinct_same_base", "fact_entry_validate_order", "fact_entry_literal_and_strconv_sites",
             # validAt (NutsProofs.Props.C11ValidAt)
             "revoked_whatever_valid_at", "received_revocation_refused_at_every_valid_at", "revoked_forever_network_at_every_valid_at",
             # base URL changes (NutsProofs.Props.C11Rebase)
@@ -41,7 +41,7 @@ ENTRY_RE = re.compile(r"(n\d+/\S+/\d+) (\S+) wf=(\w+)")
 
 def scenario_ops(ops, i):
     """ops of the scenario containing line i, up to and including i (scenario = from the last reset)"""
-    if json.loads(ops[i]).get("op") == "wire":
+    if json.loads(ops[i]).get("op") in ("wire", "url"):
         return ops[i] + "\n"
     k = i
     while k > 0 and json.loads(ops[k]).get("op") != "reset":
@@ -63,6 +63,7 @@ def oracle(ctx, ops, impl, max_index, min_left_min, max_age=900):
     revoked = {}       # (node, list) -> set(idx) successfully revoked
     served = {}        # (node, list) -> last served bit set
     seen_revoked = set()  # (node, list, idx) a verify on that node answered revoked
+    url_seen = {}         # rendered status list URL -> (base, issuer, page)
     hosted_valid = {}     # foreign url -> union of the bits of every valid revocation list ever hosted there in this scenario
     hosted_now = {}       # foreign url -> what it serves now
     clock = 0             # virtual seconds since the scenario started (sum of the ticks)
@@ -313,6 +314,16 @@ def oracle(ctx, ops, impl, max_index, min_left_min, max_age=900):
                 else:
                     report("C11:issued-entry-cannot-be-revoked",
                            f"{name}#{idx} was handed out after the base URL changed to {op.get('raw')}; Revoke answers {revs[k] if k < len(revs) else 'nothing'}", i)
+        elif kind == "url":
+            # the URL a status list is served under / named by: <base>/statuslist/<did>/<page>, never shared by two lists
+            stats["status-list-urls"] += 1
+            u = line[4:]
+            want = f"{op.get('raw', '')}/statuslist/{op.get('issuer', '')}/{op.get('page', 0)}"
+            if u != want:
+                report("C11:status-list-url-rendering", f"expected {want}, got {u}", i)
+            key = (op.get("raw", ""), op.get("issuer", ""), op.get("page", 0))
+            if url_seen.setdefault(u, key) != key:
+                report("C11:two-status-lists-share-a-url", f"{u}: {url_seen[u]} and {key}", i)
         elif kind == "wire":
             # independent reference of the spec of StatusList2021Entry.Validate / strconv.Atoi / strconv.Itoa (64-bit int)
             stats["wire-cases"] += 1
